@@ -647,6 +647,7 @@ func runC09(ctx *common.Ctx) error {
 	if err := x.concurrent(thorough); err != nil {
 		return err
 	}
+	x.lockTableStress(thorough)
 
 	res.ModelCases = len(x.cases)
 	b, _ := json.Marshal(map[string]int{"corruption_cases": ncorr})
